@@ -61,7 +61,14 @@ func (n *naiveTSO) Commit(revision uint64) {
 	//	panic("committed revision must increase continuously")
 	//}
 
-	atomic.StoreUint64(&n.committedRevision, revision)
+	// the committed revision only moves forward: a value that arrives late (a follower's sync with the previous
+	// leader that is overtaken by this node's own start as leader) must not hide what has been committed since
+	for {
+		committed := atomic.LoadUint64(&n.committedRevision)
+		if revision <= committed || atomic.CompareAndSwapUint64(&n.committedRevision, committed, revision) {
+			break
+		}
+	}
 	// in case leader transfer, need to update tso and pre tso
 	preTSO := atomic.LoadUint64(&n.dealRevision)
 	if preTSO < revision {
